@@ -26,11 +26,11 @@ def _need(v):
 
 
 def f_upper(i, v):
-    return _U().model_str(_need(v)).upper()
+    return _U().soft(_need(v)).upper()
 
 
 def f_lower(i, v):
-    return _U().model_str(_need(v)).lower()
+    return _U().soft(_need(v)).lower()
 
 
 def f_length(i, v):
@@ -42,7 +42,7 @@ def f_abs(i, v):
 
 
 def f_string(i, v):
-    return _U().model_str(v)
+    return _U().soft(v)
 
 
 def f_join(i, v, d=""):
@@ -81,11 +81,11 @@ def f_sum(i, v, start=0):
 
 
 def f_trim(i, v):
-    return _U().model_str(_need(v)).strip()
+    return _U().soft(_need(v)).strip()
 
 
 def f_capitalize(i, v):
-    return _U().model_str(_need(v)).capitalize()
+    return _U().soft(_need(v)).capitalize()
 
 
 def f_max(i, v):
@@ -128,7 +128,9 @@ def f_reverse_list(i, v):
 
 
 def f_safe(i, v):
-    return v
+    from markupsafe import Markup
+
+    return Markup(_U().soft(v))
 
 
 FILTERS = {
@@ -136,7 +138,7 @@ FILTERS = {
     "length": f_length, "count": f_length, "abs": f_abs, "string": f_string,
     "join": f_join, "first": f_first, "last": f_last, "list": f_list, "sort": f_sort,
     "sum": f_sum, "trim": f_trim, "capitalize": f_capitalize, "max": f_max, "min": f_min,
-    "int": f_int, "replace": f_replace,
+    "int": f_int, "replace": f_replace, "safe": f_safe,
 }
 
 
